@@ -247,17 +247,18 @@ def r_gamma_ens(chains, reps, S, tau_exp, N_sigma):
         if wmax // 2 <= 1:
             return 'need8'
         out['drho'][1] = drho(1)
+        margins = []
         for n in range(1, wmax // 2):
             out['drho'][n + 1] = drho(n + 1)
             margin = rho[n] - N_sigma * out['drho'][n]
+            margins.append(margin)
             if margin < 0 or n >= wmax // 2 - 2:
                 tau = nt[n] * (1 + (2 * n + 1) / N) / (1 + 1 / N) + tau_exp * abs(rho[n + 1])
                 out.update(tauint=tau, dtauint=math.sqrt(ndt[n] ** 2 + tau_exp ** 2 * out['drho'][n + 1] ** 2),
                            dvalue=math.sqrt(2 * tau * G[0] * (1 + 1 / N) / N), W=n)
                 out['ddvalue'] = out['dvalue'] * math.sqrt((n + 0.5) / N)
                 break
-            out.setdefault('margins', []).append(margin)
-        out.setdefault('margins', []).append(margin)
+        out['margins'] = margins
     elif S == 0:
         out.update(tauint=0.5, dtauint=0.0, dvalue=math.sqrt(G[0] / (N - 1)), W=0)
         out['ddvalue'] = out['dvalue'] * math.sqrt(0.5 / N)
